@@ -74,6 +74,51 @@ Fixpoint complexity (r : re) : N :=
   | RAlt rs => match list_min (map complexity rs) with Some m => m | None => 0 end
   end.
 
+(* Pattern::complexity as the code computes it, in usize: the product and the sum saturate (finding F11:
+   they used to overflow - a panic in builds with overflow checks, a wrapped priority otherwise) *)
+Definition usize_max : N := 18446744073709551615.
+Definition sat (x : N) : N := N.min x usize_max.
+Fixpoint complexity_sat (r : re) : N :=
+  match r with
+  | REmpty => 0
+  | RLit bs => lit_complexity bs
+  | RClassB _ | RClassU _ => 2
+  | RLook => 0
+  | RRep mn _ _ s => sat (mn * complexity_sat s)
+  | RCap s => complexity_sat s
+  | RCat rs => fold_left (fun acc x => sat (acc + complexity_sat x)) rs 0
+  | RAlt rs => match list_min (map complexity_sat rs) with Some m => m | None => 0 end
+  end.
+(* the code as it was: wrapping arithmetic (release); [None] = the overflow panic of a debug build *)
+Fixpoint complexity_checked (r : re) : option N :=
+  match r with
+  | REmpty => Some 0
+  | RLit bs => Some (lit_complexity bs)
+  | RClassB _ | RClassU _ => Some 2
+  | RLook => Some 0
+  | RRep mn _ _ s => match complexity_checked s with
+                     | Some c => if mn * c <=? usize_max then Some (mn * c) else None
+                     | None => None end
+  | RCap s => complexity_checked s
+  | RCat rs => fold_left (fun acc x => match acc, complexity_checked x with
+                                       | Some a, Some c => if a + c <=? usize_max then Some (a + c) else None
+                                       | _, _ => None end) rs (Some 0)
+  | RAlt rs => match fold_right (fun x acc => match complexity_checked x, acc with
+                                             | Some c, Some l => Some (c :: l)
+                                             | _, _ => None end) (Some []) rs with
+               | Some l => Some (match list_min l with Some m => m | None => 0 end)
+               | None => None
+               end
+  end.
+(* every literal is shorter than 2^63 bytes (2 x its length fits) *)
+Fixpoint lits_small (r : re) : bool :=
+  match r with
+  | RLit bs => lit_complexity bs <=? usize_max
+  | RRep _ _ _ s | RCap s => lits_small s
+  | RCat rs | RAlt rs => forallb lits_small rs
+  | _ => true
+  end.
+
 (* #[token] default priority: 2 x byte length *)
 Definition token_priority (bs : list N) : N := 2 * N.of_nat (length bs).
 
